@@ -12,12 +12,21 @@ import itertools
 from vlib import core
 
 
-def impl_sort(depmap):
+def impl_sort(depmap, ignore=()):
+    """Run the real sort_modules; `ignore` = module numbers put on the manager's ignore list (the
+    list only silences the 'cannot find module' warning: it must not change the result)."""
     from psyclone.parse import ModuleManager
     mm = ModuleManager.get()
     d = {("m%d" % k): set("m%d" % x for x in ds) for k, ds in depmap}
-    with contextlib.redirect_stdout(io.StringIO()):
-        res = mm.sort_modules(d)
+    saved = set(mm._ignore_modules)
+    try:
+        for k in ignore:
+            mm.add_ignore_module("m%d" % k)
+        with contextlib.redirect_stdout(io.StringIO()):
+            res = mm.sort_modules(d)
+    finally:
+        mm._ignore_modules.clear()
+        mm._ignore_modules.update(saved)
     return [int(x[1:]) for x in res]
 
 
@@ -100,15 +109,22 @@ def run(ctx):
             m.append((k, ds))
         cases.append(m)
     coq_cases, bad_prop = [], []
-    for m in cases:
-        res = impl_sort(m)
+    irng = ctx.rng("ignore")
+    for ci, m in enumerate(cases):
+        # every third case runs with a non-empty ignore list drawn from the keys and the unknown names
+        ign = ()
+        if ci % 3 == 1:
+            pool = [k for k, _ in m] + [99, 98]
+            ign = tuple(x for x in pool if irng.random() < 0.4)
+        ctx.hist("ignore_list_size", len(ign))
+        res = impl_sort(m, ign)
         nontriv = any(d in {k for k, _ in m} for _, ds in m for d in ds)
         ctx.count(m, nontriv)
         ctx.hist("n_modules", len(m))
         ctx.hist("acyclic", is_acyclic(m))
         why = property_holds(m, res)
         if why:
-            bad_prop.append((m, res, why))
+            bad_prop.append((m, res, why + (" (ignore list: %s)" % list(ign) if ign else "")))
         coq_cases.append(coq_case(m, res))
     ctx.sample({"map": cases[-1], "impl_result": impl_sort(cases[-1])})
     ctx.sample({"map": cases[len(cases) // 2], "impl_result": impl_sort(cases[len(cases) // 2])})
